@@ -91,17 +91,21 @@ class Built(object):
             name, work, ll, native, ffi, sources
         self._n = 0
 
-    def run_native(self, inputs, tag=None):
+    def run_native(self, inputs, tag=None, keep_going=False):
         """Run the native harness on {name: int}. -> (status, {output name: int}, [event lines])
-        status: 'done' | 'exit' | 'assert:<id>' | 'fail:<id>' | 'assume' | 'missing:<name>' |
-        'crash:<rc>'"""
+        status: 'done' | 'exit' | 'assert:<id>' (the first one) | 'fail:<id>' | 'assume' |
+        'missing:<name>' | 'crash:<rc>'.  keep_going: do not stop at a failing assertion."""
         self._n += 1
         path = os.path.join(self.work, 'in_%s_%d.txt' % (tag or os.getpid(), self._n))
         with open(path, 'w') as f:
             for k, v in inputs.items():
                 f.write('%s %d\n' % (k, int(v) & 0xffffffffffffffff))
+        env = dict(os.environ)
+        env.pop('LLSYM_KEEP_GOING', None)
+        if keep_going:
+            env['LLSYM_KEEP_GOING'] = '1'
         p = subprocess.run([self.native, path], stdout=subprocess.PIPE, stderr=subprocess.STDOUT,
-                           text=True, timeout=60)
+                           text=True, timeout=60, env=env)
         os.unlink(path)
         outs, events, status = {}, [], None
         for line in p.stdout.split('\n'):
@@ -112,6 +116,8 @@ class Built(object):
                 outs[w[1]] = int(w[2])
             else:
                 events.append(line)
+                if status is not None and status.startswith('assert:'):
+                    continue          # keep_going: the first failed assertion names the outcome
                 if w[0] == 'ASSERT':
                     status = 'assert:' + w[1]
                 elif w[0] == 'FAIL':
